@@ -331,5 +331,1001 @@ theorem divideAtPoint_length [DecidableEq F] (nv : Nat) (p : MVPoly F) (z : List
   · simp
   · exact divLoop_length z nv 0 p
 
+/-! ### term predicates preserved by the division -/
+
+/-- a predicate on terms that survives dividing out one variable is inherited by every quotient -/
+theorem divLoop_terms [DecidableEq F] (P : Term → Prop)
+    (hrem : ∀ u i k, P u → Term.find? i u = some k → P (Term.new (Term.erase i u)))
+    (hquot : ∀ u i k j, P u → Term.find? i u = some k → j + 1 < k →
+      P (Term.new (Term.setPow i (j + 1) u)))
+    (z : List F) (n i : Nat) (cur : MVPoly F) (h : ∀ t ∈ termsOf cur, P t) :
+    ∀ w ∈ divLoop z n i cur, ∀ t ∈ termsOf w, P t := by
+  induction n generalizing i cur with
+  | zero => intro w hw; simp [divLoop] at hw
+  | succ n ih =>
+    intro w hw
+    simp only [divLoop, List.mem_cons] at hw
+    rcases hw with rfl | hw
+    · intro t ht
+      obtain ⟨u, hu, k, hf, hh⟩ := mem_divTerms_quot i _ cur t (mem_fromCoeffs_term _ t ht)
+      rcases hh with rfl | ⟨j, hj, rfl⟩
+      · exact hrem u i k (h u hu) hf
+      · exact hquot u i k j (h u hu) hf hj
+    · refine ih (i + 1) _ ?_ w hw
+      intro t ht
+      obtain ⟨u, hu, hh⟩ := mem_divTerms_rem i _ cur t (mem_fromCoeffs_term _ t ht)
+      rcases hh with ⟨_, htu⟩ | ⟨k, hf, rfl⟩
+      · rw [htu]; exact h u hu
+      · exact hrem u i k (h u hu) hf
+
+theorem divideAtPoint_terms [DecidableEq F] (P : Term → Prop)
+    (hrem : ∀ u i k, P u → Term.find? i u = some k → P (Term.new (Term.erase i u)))
+    (hquot : ∀ u i k j, P u → Term.find? i u = some k → j + 1 < k →
+      P (Term.new (Term.setPow i (j + 1) u)))
+    (nv : Nat) (p : MVPoly F) (z : List F) (h : ∀ t ∈ termsOf p, P t) :
+    ∀ w ∈ divideAtPoint nv p z, ∀ t ∈ termsOf w, P t := by
+  unfold divideAtPoint
+  split
+  · intro w hw t ht
+    rw [List.eq_of_mem_replicate hw] at ht
+    simp [termsOf] at ht
+  · exact divLoop_terms P hrem hquot z nv 0 p h
+
+/-- "each monomial is univariate": the shape of blinding polynomials -/
+def isUni : Term → Bool
+  | [] => true
+  | [q] => q.2 != 0
+  | _ => false
+
+theorem isUni_wf {t : Term} (h : isUni t = true) : Term.wf t = true := by
+  match t with
+  | [] => rfl
+  | [q] => simpa [isUni, Term.wf] using h
+  | _ :: _ :: _ => simp [isUni] at h
+
+theorem isUni_rem (u : Term) (i k : Nat) (hu : isUni u = true) (hf : Term.find? i u = some k) :
+    isUni (Term.new (Term.erase i u)) = true := by
+  match u with
+  | [] => simp [Term.find?] at hf
+  | [q] =>
+    simp only [Term.find?] at hf
+    split at hf
+    · rename_i hq; simp [Term.erase, hq, Term.new, Term.retainNonzero, isUni]
+    · cases hf
+  | _ :: _ :: _ => simp [isUni] at hu
+
+theorem isUni_quot (u : Term) (i k j : Nat) (hu : isUni u = true) (hf : Term.find? i u = some k)
+    (hj : j + 1 < k) : isUni (Term.new (Term.setPow i (j + 1) u)) = true := by
+  match u with
+  | [] => simp [Term.find?] at hf
+  | [q] =>
+    simp only [Term.find?] at hf
+    split at hf
+    · rename_i hq
+      have hw : Term.wf [(i, j + 1)] = true := by simp [Term.wf]
+      simp only [Term.setPow, hq, if_true, Term.new_of_wf hw]
+      simp [isUni]
+    · cases hf
+  | _ :: _ :: _ => simp [isUni] at hu
+
+/-! ### well-formed keys -/
+
+section Keys
+variable [DecidableEq F]
+
+/-- The committer key `setup`/`trim` make from the trapdoor `β⃗` and the generators' scalars
+`g, γ`: `powers_of_g[t] = g·t(β⃗)` for the monomials `ts`, `powers_of_gamma_g[i][j] = γ·βᵢ^(j+1)`
+(`m` entries per row). -/
+def wfCK (g γ : F) (β : List F) (ts : List Term) (nv s D m : Nat) : CK F :=
+  { powersOfG := ts.map (fun t => (t, g * evalTerm t β))
+    gammaG := γ
+    powersOfGammaG := (List.range nv).map (fun i => gammaRow γ (getD' β i 0) m 1)
+    numVars := nv, supportedDegree := s, maxDegree := D }
+
+/-- the matching verifier key: `beta_h[i] = βᵢ·h` -/
+def wfVK (g γ h : F) (β : List F) (nv s D : Nat) : VK F :=
+  { g := g, gammaG := γ, h := h, betaH := β.map (fun b => h * b)
+    numVars := nv, supportedDegree := s, maxDegree := D }
+
+theorem mapGet_map (f : Term → F) (ts : List Term) (t : Term) (b : F)
+    (h : mapGet (ts.map (fun t => (t, f t))) t = some b) : b = f t := by
+  induction ts with
+  | nil => simp [mapGet] at h
+  | cons a ts ih =>
+    simp only [List.map_cons, mapGet] at h
+    split at h
+    · rename_i ha
+      injection h with h
+      rw [← h, ← ha]
+    · exact ih h
+
+theorem mapGet_map_of_mem (f : Term → F) (ts : List Term) (t : Term) (ht : t ∈ ts) :
+    mapGet (ts.map (fun t => (t, f t))) t = some (f t) := by
+  induction ts with
+  | nil => cases ht
+  | cons a ts ih =>
+    simp only [List.map_cons, mapGet]
+    by_cases ha : a = t
+    · simp [ha]
+    · rw [if_neg ha]
+      rcases List.mem_cons.1 ht with h | h
+      · exact absurd h.symm ha
+      · exact ih h
+
+theorem lookG_wf (g : F) (β : List F) (ts : List Term) (t : Term) (b : F)
+    (h : lookG (ts.map (fun t => (t, g * evalTerm t β))) t = .ok b) : b = g * evalTerm t β := by
+  unfold lookG at h
+  split at h
+  · cases h
+  · rename_i b' hb
+    injection h with h
+    rw [← h]
+    exact mapGet_map _ ts t b' hb
+
+theorem gammaRow_get (γ β : F) (n : Nat) (cur : F) (j : Nat) (b : F)
+    (h : (gammaRow γ β n cur)[j]? = some b) : b = γ * (cur * fpow β (j + 1)) := by
+  induction n generalizing cur j with
+  | zero => simp [gammaRow] at h
+  | succ n ih =>
+    cases j with
+    | zero =>
+      simp only [gammaRow, List.getElem?_cons_zero] at h
+      injection h with h
+      rw [← h]; simp only [fpow_succ, fpow_zero]; ring
+    | succ j =>
+      simp only [gammaRow, List.getElem?_cons_succ] at h
+      rw [ih _ _ h, fpow_succ β (j + 1)]; ring
+
+theorem gammaBase_wf (γ : F) (β : List F) (nv m : Nat) (t : Term) (b : F) (hu : isUni t = true)
+    (h : gammaBase γ ((List.range nv).map (fun i => gammaRow γ (getD' β i 0) m 1)) t = .ok b) :
+    b = γ * evalTerm t β := by
+  match t with
+  | [] =>
+    simp only [gammaBase, Term.isConstant, List.isEmpty_nil, Bool.true_or, if_true] at h
+    injection h with h
+    simp [← h]
+  | [q] =>
+    have hq : q.2 ≠ 0 := by simpa [isUni] using hu
+    have hc : Term.isConstant [q] = false := by
+      simp [Term.isConstant, Term.degree, hq]
+    simp only [gammaBase, hc, Term.vars, List.map_cons, List.map_nil, List.getElem?_cons_zero,
+      Bool.false_eq_true, if_false] at h
+    split at h
+    · cases h
+    · rename_i row hrow
+      split at h
+      · cases h
+      · rename_i b' hb
+        injection h with h
+        rw [List.getElem?_map] at hrow
+        cases hr : (List.range nv)[q.1]? with
+        | none => simp [hr] at hrow
+        | some v =>
+          simp only [hr, Option.map_some, Option.some.injEq] at hrow
+          have hv : v = q.1 := by
+            rw [List.getElem?_range] at hr
+            · injection hr with hr; exact hr.symm
+            · by_contra hlt
+              rw [List.getElem?_eq_none (by simpa using Nat.le_of_not_lt hlt)] at hr
+              cases hr
+          rw [← hrow, hv] at hb
+          have := gammaRow_get _ _ _ _ _ _ hb
+          simp only [Term.degree] at this
+          rw [← h, this]
+          have hk : q.2 + 0 - 1 + 1 = q.2 := by omega
+          rw [hk]
+          simp only [evalTerm_cons, evalTerm_nil]; ring
+  | _ :: _ :: _ => simp [isUni] at hu
+
+theorem msmBy_spec (look : Term → Except Err F) (c0 : F) (β : List F) (p : MVPoly F) (x : F)
+    (hl : ∀ t ∈ termsOf p, ∀ b, look t = .ok b → b = c0 * evalTerm t β)
+    (h : msmBy look p = .ok x) : x = c0 * evalMV p β := by
+  induction p generalizing x with
+  | nil =>
+    simp only [msmBy] at h
+    injection h with h
+    simp [← h]
+  | cons ct p ih =>
+    simp only [msmBy] at h
+    split at h
+    · cases h
+    · rename_i b hb
+      split at h
+      · cases h
+      · rename_i acc hacc
+        injection h with h
+        have h1 := hl ct.2 (by simp [termsOf]) b hb
+        have h2 := ih acc (fun t ht => hl t (by simp only [termsOf, List.map_cons, List.mem_cons] at ht ⊢; exact Or.inr ht)) hacc
+        rw [← h, h1, h2]; simp only [evalMV_cons]; ring
+
+theorem msmAll_spec (look : Term → Except Err F) (c0 : F) (β : List F) (ws : List (MVPoly F))
+    (xs : List F)
+    (hl : ∀ w ∈ ws, ∀ t ∈ termsOf w, ∀ b, look t = .ok b → b = c0 * evalTerm t β)
+    (h : msmAll look ws = .ok xs) : xs = ws.map (fun w => c0 * evalMV w β) := by
+  induction ws generalizing xs with
+  | nil =>
+    simp only [msmAll] at h
+    injection h with h
+    simp [← h]
+  | cons w ws ih =>
+    simp only [msmAll] at h
+    split at h
+    · cases h
+    · rename_i x hx
+      split at h
+      · cases h
+      · rename_i xs' hxs
+        injection h with h
+        have h1 := msmBy_spec look c0 β w x (hl w (by simp)) hx
+        have h2 := ih xs' (fun w' hw' => hl w' (by simp [hw'])) hxs
+        rw [← h, h1, h2]; rfl
+
+theorem addHiding_spec (look : Term → Except Err F) (c1 : F) (β : List F) (ws : List F)
+    (hws : List (MVPoly F)) (xs : List F)
+    (hl : ∀ w ∈ hws, ∀ t ∈ termsOf w, ∀ b, look t = .ok b → b = c1 * evalTerm t β)
+    (h : addHiding look ws hws = .ok xs) :
+    xs = List.zipWith (fun w hw => w + c1 * evalMV hw β) ws hws ∧ ws.length ≤ hws.length := by
+  induction ws generalizing hws xs with
+  | nil =>
+    simp only [addHiding] at h
+    injection h with h
+    simp [← h]
+  | cons w ws ih =>
+    cases hws with
+    | nil => simp [addHiding] at h
+    | cons hw hws =>
+      simp only [addHiding] at h
+      split at h
+      · cases h
+      · rename_i x hx
+        split at h
+        · cases h
+        · rename_i xs' hxs
+          injection h with h
+          have h1 := msmBy_spec look c1 β hw x (hl hw (by simp)) hx
+          have h2 := ih hws xs' (fun w' hw' => hl w' (by simp [hw'])) hxs
+          rw [← h, h1, h2.1]
+          simp only [List.zipWith_cons_cons, List.length_cons]
+          have := h2.2
+          exact ⟨trivial, by omega⟩
+
+theorem getD'_map_mul (h : F) (β : List F) (j : Nat) :
+    getD' (β.map (fun b => h * b)) j 0 = h * getD' β j 0 := by
+  unfold getD'
+  rw [List.getElem?_map]
+  cases β[j]? <;> simp
+
+/-- the right-hand multi-pairing for witnesses `Wᵢ = g·wᵢ(β⃗) + γ·w'ᵢ(β⃗)` -/
+theorem rhsSum_zip (g γ h : F) (β z : List F) (j : Nat) (ws hws : List (MVPoly F))
+    (hlen : ws.length = hws.length) :
+    rhsSum h (β.map (fun b => h * b)) z j
+        (List.zipWith (fun w hw => g * evalMV w β + γ * evalMV hw β) ws hws)
+      = h * (g * quotSum β z j ws + γ * quotSum β z j hws) := by
+  induction ws generalizing j hws with
+  | nil =>
+    cases hws with
+    | nil => simp [rhsSum, quotSum]
+    | cons _ _ => simp at hlen
+  | cons w ws ih =>
+    cases hws with
+    | nil => simp at hlen
+    | cons hw hws =>
+      simp only [List.zipWith_cons_cons, rhsSum, quotSum, getD'_map_mul]
+      rw [ih (j + 1) hws (by simpa using hlen)]
+      ring
+
+theorem rhsSum_map (g h : F) (β z : List F) (j : Nat) (ws : List (MVPoly F)) :
+    rhsSum h (β.map (fun b => h * b)) z j (ws.map (fun w => g * evalMV w β))
+      = h * (g * quotSum β z j ws) := by
+  induction ws generalizing j with
+  | nil => simp [rhsSum, quotSum]
+  | cons w ws ih =>
+    simp only [List.map_cons, rhsSum, quotSum, getD'_map_mul]
+    rw [ih (j + 1)]
+    ring
+
+/-! ### the challenge combination (prover) against the accumulation (verifier) -/
+
+theorem checkDegree_ok (s : Nat) (p : MVPoly F) : checkDegree s p = .ok () ↔ ¬ degreeMV p > s := by
+  unfold checkDegree; split <;> simp_all
+
+/-- any property of terms shared by the accumulator and the inputs holds for the combination -/
+theorem combine_terms (P : Term → Prop) (s : Nat) (pa ra : MVPoly F) (ps rs : List (MVPoly F))
+    (ξs : List F) (out : MVPoly F × MVPoly F × List F)
+    (h : combine s pa ra ps rs ξs = .ok out)
+    (hpa : ∀ t ∈ termsOf pa, P t) (hps : ∀ p ∈ ps, ∀ t ∈ termsOf p, P t) :
+    ∀ t ∈ termsOf out.1, P t := by
+  induction ps generalizing pa ra rs ξs with
+  | nil =>
+    simp only [combine] at h
+    injection h with h
+    rw [← h]; exact hpa
+  | cons p ps ih =>
+    cases rs with
+    | nil =>
+      simp only [combine] at h
+      injection h with h
+      rw [← h]; exact hpa
+    | cons r rs =>
+      simp only [combine] at h
+      split at h
+      · cases h
+      · cases ξs with
+        | nil => simp at h
+        | cons ξ ξs =>
+          simp only at h
+          refine ih _ _ rs ξs h ?_ (fun q hq => hps q (by simp [hq]))
+          intro t ht
+          rcases mem_addScaledMV_term pa p ξ t ht with ht | ht
+          · exact hpa t ht
+          · exact hps p (by simp) t ht
+
+theorem combine_terms_r (P : Term → Prop) (s : Nat) (pa ra : MVPoly F) (ps rs : List (MVPoly F))
+    (ξs : List F) (out : MVPoly F × MVPoly F × List F)
+    (h : combine s pa ra ps rs ξs = .ok out)
+    (hra : ∀ t ∈ termsOf ra, P t) (hrs : ∀ r ∈ rs, ∀ t ∈ termsOf r, P t) :
+    ∀ t ∈ termsOf out.2.1, P t := by
+  induction ps generalizing pa ra rs ξs with
+  | nil =>
+    simp only [combine] at h
+    injection h with h
+    rw [← h]; exact hra
+  | cons p ps ih =>
+    cases rs with
+    | nil =>
+      simp only [combine] at h
+      injection h with h
+      rw [← h]; exact hra
+    | cons r rs =>
+      simp only [combine] at h
+      split at h
+      · cases h
+      · cases ξs with
+        | nil => simp at h
+        | cons ξ ξs =>
+          simp only at h
+          refine ih _ _ rs ξs h ?_ (fun q hq => hrs q (by simp [hq]))
+          intro t ht
+          rcases mem_addScaledMV_term ra r ξ t ht with ht | ht
+          · exact hra t ht
+          · exact hrs r (by simp) t ht
+
+/-- the commitments `g·p(β⃗) + γ·r(β⃗)` of a list of polynomials with their blinding polynomials -/
+def comms (g γ : F) (β : List F) (ps rs : List (MVPoly F)) : List F :=
+  List.zipWith (fun p r => g * evalMV p β + γ * evalMV r β) ps rs
+
+/-- **Lock-step of prover and verifier.**  If the prover's loop combines `(ps, rs)` into
+`(p̂, r̂)`, the verifier's loop on the commitments and the true values returns
+`C = g·p̂(β⃗) + γ·r̂(β⃗)`, `V = p̂(z)` (relative to the accumulators) and leaves the same unused
+challenges. -/
+theorem combine_accumulate (g γ : F) (β z : List F) (s : Nat) (pa ra : MVPoly F)
+    (ps rs : List (MVPoly F)) (ξs : List F) (out : MVPoly F × MVPoly F × List F) (ca va : F)
+    (h : combine s pa ra ps rs ξs = .ok out) (hlen : ps.length = rs.length)
+    (hpa : ∀ t ∈ termsOf pa, Term.wf t = true) (hra : ∀ t ∈ termsOf ra, Term.wf t = true)
+    (hps : ∀ p ∈ ps, ∀ t ∈ termsOf p, Term.wf t = true)
+    (hrs : ∀ r ∈ rs, ∀ t ∈ termsOf r, Term.wf t = true) :
+    accumulate ca va (comms g γ β ps rs) (ps.map (fun p => evalMV p z)) ξs
+      = .ok (ca + (g * (evalMV out.1 β - evalMV pa β) + γ * (evalMV out.2.1 β - evalMV ra β)),
+             va + (evalMV out.1 z - evalMV pa z), out.2.2) := by
+  induction ps generalizing pa ra rs ξs ca va with
+  | nil =>
+    simp only [combine] at h
+    injection h with h
+    simp [← h, comms, accumulate]
+  | cons p ps ih =>
+    cases rs with
+    | nil => simp at hlen
+    | cons r rs =>
+      simp only [combine] at h
+      split at h
+      · cases h
+      · cases ξs with
+        | nil => simp at h
+        | cons ξ ξs =>
+          simp only at h
+          have hp := hps p (by simp)
+          have hr := hrs r (by simp)
+          have hpa' : ∀ t ∈ termsOf (addScaledMV pa ξ p), Term.wf t = true := by
+            intro t ht
+            rcases mem_addScaledMV_term pa p ξ t ht with ht | ht
+            · exact hpa t ht
+            · exact hp t ht
+          have hra' : ∀ t ∈ termsOf (addScaledMV ra ξ r), Term.wf t = true := by
+            intro t ht
+            rcases mem_addScaledMV_term ra r ξ t ht with ht | ht
+            · exact hra t ht
+            · exact hr t ht
+          have := ih _ _ rs ξs (ca + (g * evalMV p β + γ * evalMV r β) * ξ) (va + evalMV p z * ξ) h
+            (by simpa using hlen) hpa' hra' (fun q hq => hps q (by simp [hq]))
+            (fun q hq => hrs q (by simp [hq]))
+          simp only [comms, List.zipWith_cons_cons, List.map_cons, accumulate] at this ⊢
+          rw [this]
+          simp only [evalMV_addScaledMV _ _ _ _ hpa hp, evalMV_addScaledMV _ _ _ _ hra hr]
+          congr 1
+          refine Prod.ext ?_ (Prod.ext ?_ rfl)
+          · simp only; ring
+          · simp only; ring
+
+/-! ### honest openings -/
+
+theorem msmAll_length (look : Term → Except Err F) (ws : List (MVPoly F)) (xs : List F)
+    (h : msmAll look ws = .ok xs) : xs.length = ws.length := by
+  induction ws generalizing xs with
+  | nil => simp only [msmAll] at h; injection h with h; simp [← h]
+  | cons w ws ih =>
+    simp only [msmAll] at h
+    split at h
+    · cases h
+    · split at h
+      · cases h
+      · rename_i xs' hxs
+        injection h with h
+        simp [← h, ih xs' hxs]
+
+/-- what `open` returns on the combined polynomials `(p̂, r̂)` under a well-formed key:
+the verifier's defect on `C = g·p̂(β⃗) + γ·r̂(β⃗)`, `V = p̂(z)` vanishes. -/
+theorem openCombined_defect (g γ h : F) (β : List F) (ts : List Term) (nv s D m : Nat)
+    (p r : MVPoly F) (z : List F) (π : Proof F)
+    (hp : polyWf p = true) (hpv : polyVarsBelow nv p = true)
+    (hr : polyWf r = true) (hrv : polyVarsBelow nv r = true)
+    (hru : ∀ t ∈ termsOf r, isUni t = true)
+    (ho : openCombined (wfCK g γ β ts nv s D m) nv nv p r z = .ok π) :
+    defectCombined (wfVK g γ h β nv s D) (g * evalMV p β + γ * evalMV r β) (evalMV p z) z π = 0
+      ∧ π.w.length = nv := by
+  unfold openCombined at ho
+  simp only [wfCK] at ho
+  split at ho
+  · cases ho
+  · rename_i w hw
+    have hwlen := msmAll_length _ _ _ hw
+    rw [divideAtPoint_length] at hwlen
+    have hwspec := msmAll_spec _ g β _ w (fun _ _ t _ b hb => lookG_wf g β ts t b hb) hw
+    have hexp := divideAtPoint_exact nv p z β hp hpv
+    split at ho
+    · rename_i hz
+      injection ho with ho
+      subst ho
+      refine ⟨?_, hwlen⟩
+      unfold defectCombined wfVK
+      simp only [rvVal]
+      rw [hwspec, rhsSum_map, ← hexp, evalMV_of_isZero r hz]
+      ring
+    · split at ho
+      · cases ho
+      · rename_i w' hw'
+        split at ho
+        · cases ho
+        · injection ho with ho
+          subst ho
+          have huq : ∀ q ∈ divideAtPoint nv r z, ∀ t ∈ termsOf q, isUni t = true :=
+            divideAtPoint_terms (fun t => isUni t = true) isUni_rem isUni_quot nv r z hru
+          have hspec := addHiding_spec _ γ β w _ w'
+            (fun q hq t ht b hb => gammaBase_wf γ β nv m t b (huq q hq t ht) hb) hw'
+          have hexr := divideAtPoint_exact nv r z β hr hrv
+          have hlen2 : (divideAtPoint nv p z).length = (divideAtPoint nv r z).length := by
+            rw [divideAtPoint_length, divideAtPoint_length]
+          refine ⟨?_, ?_⟩
+          · unfold defectCombined wfVK
+            simp only [rvVal]
+            rw [hspec.1, hwspec, List.zipWith_map_left, rhsSum_zip _ _ _ _ _ _ _ _ hlen2,
+              ← hexp, ← hexr]
+            ring
+          · simp only
+            rw [hspec.1, List.length_zipWith, hwlen, divideAtPoint_length]
+            simp
+
+/-- **Completeness for the challenge-combined list.**  Key well-formed for the trapdoor `β⃗`;
+polynomials and blinding polynomials built by the library over `nv` variables (blinding terms
+univariate); whenever the prover returns a proof, the verifier accepts the true values under the
+same challenges. -/
+theorem open_check_complete (g γ h : F) (β : List F) (ts : List Term) (nv s D m : Nat)
+    (ps rs : List (MVPoly F)) (z ξs : List F) (π : Proof F)
+    (hlen : ps.length = rs.length)
+    (hps : ∀ p ∈ ps, polyWf p = true ∧ polyVarsBelow nv p = true)
+    (hrs : ∀ r ∈ rs, polyWf r = true ∧ polyVarsBelow nv r = true ∧ ∀ t ∈ termsOf r, isUni t = true)
+    (hβ : nv ≤ β.length) (hz : nv ≤ z.length)
+    (ho : PST.open (wfCK g γ β ts nv s D m) nv nv ps z rs ξs = .ok π) :
+    check (wfVK g γ h β nv s D) (comms g γ β ps rs) z (ps.map (fun p => evalMV p z)) π ξs
+      = .ok true := by
+  unfold PST.open at ho
+  split at ho
+  · cases ho
+  · rename_i c hc
+    have hnil : ∀ (P : Term → Prop), ∀ t ∈ termsOf ([] : MVPoly F), P t := by
+      intro P t ht; simp [termsOf] at ht
+    have hacc := combine_accumulate g γ β z _ [] [] ps rs ξs c 0 0 hc hlen (hnil _) (hnil _)
+      (fun p hp => (polyWf_iff p).1 (hps p hp).1) (fun r hr => (polyWf_iff r).1 (hrs r hr).1)
+    have h1 := combine_terms (fun t => Term.wf t = true) _ [] [] ps rs ξs c hc (hnil _)
+      (fun p hp => (polyWf_iff p).1 (hps p hp).1)
+    have h2 := combine_terms (fun t => Term.varsBelow nv t = true) _ [] [] ps rs ξs c hc (hnil _)
+      (fun p hp => (polyVarsBelow_iff nv p).1 (hps p hp).2)
+    have h3 := combine_terms_r (fun t => Term.wf t = true) _ [] [] ps rs ξs c hc (hnil _)
+      (fun r hr => (polyWf_iff r).1 (hrs r hr).1)
+    have h4 := combine_terms_r (fun t => Term.varsBelow nv t = true) _ [] [] ps rs ξs c hc (hnil _)
+      (fun r hr => (polyVarsBelow_iff nv r).1 (hrs r hr).2.1)
+    have h5 := combine_terms_r (fun t => isUni t = true) _ [] [] ps rs ξs c hc (hnil _)
+      (fun r hr => (hrs r hr).2.2)
+    obtain ⟨hd, hwl⟩ := openCombined_defect g γ h β ts nv s D m c.1 c.2.1 z π
+      ((polyWf_iff _).2 h1) ((polyVarsBelow_iff nv _).2 h2) ((polyWf_iff _).2 h3)
+      ((polyVarsBelow_iff nv _).2 h4) h5 ho
+    unfold check
+    rw [hacc]
+    simp only [evalMV_nil, sub_zero, zero_add, hd]
+    have : ¬ (π.w.length > (wfVK g γ h β nv s D).betaH.length ∨ π.w.length > z.length) := by
+      simp only [wfVK, List.length_map, hwl]; omega
+    rw [if_neg this]
+    simp
+
+/-! ### commit -/
+
+theorem mem_termsOf_zip (a : List F) (b : List Term) (t : Term) (h : t ∈ termsOf (List.zip a b)) :
+    t ∈ b := by
+  simp only [termsOf, List.mem_map] at h
+  obtain ⟨x, hx, rfl⟩ := h
+  exact (List.of_mem_zip hx).2
+
+theorem mem_randTerms (d l : Nat) (t : Term) (h : t ∈ randTerms d l) :
+    isUni t = true ∧ Term.varsBelow l t = true := by
+  simp only [randTerms, List.mem_cons, List.mem_flatMap, List.mem_range, List.mem_map] at h
+  rcases h with rfl | ⟨v, hv, j, hj, rfl⟩
+  · simp [Term.new, Term.retainNonzero, isUni, Term.varsBelow]
+  · have hw : Term.wf [(v, j + 1)] = true := by simp [Term.wf]
+    rw [Term.new_of_wf hw]
+    simp [isUni, Term.varsBelow, hv]
+
+/-- **C08-style statement for PST13.**  Whatever `commit` returns under a well-formed key is the
+key-defined linear map `g·p(β⃗) + γ·r(β⃗)`, and the blinding polynomial has the shape the prover
+relies on. -/
+theorem commit_spec (g γ : F) (β : List F) (ts : List Term) (nv s D m : Nat) (p : MVPoly F)
+    (hb : Option Nat) (rng : Bool) (draws : List F) (c : F) (r : MVPoly F) (rest : List F)
+    (h : commit (wfCK g γ β ts nv s D m) p hb rng draws = .ok (c, r, rest)) :
+    c = g * evalMV p β + γ * evalMV r β ∧ polyWf r = true ∧ polyVarsBelow nv r = true
+      ∧ (∀ t ∈ termsOf r, isUni t = true) ∧ degreeMV p ≤ s := by
+  unfold commit at h
+  simp only [wfCK] at h
+  split at h
+  · cases h
+  · rename_i hdeg
+    have hdeg' : degreeMV p ≤ s := by
+      have := (checkDegree_ok s p).1 hdeg; omega
+    split at h
+    · cases h
+    · rename_i c0 hc0
+      have hc := msmBy_spec _ g β p c0 (fun t _ b hb => lookG_wf g β ts t b hb) hc0
+      split at h
+      · injection h with h; injection h with h1 h2; injection h2 with h2 h3
+        subst h1; subst h2
+        refine ⟨by rw [hc]; simp, rfl, rfl, fun t ht => by simp [termsOf] at ht, hdeg'⟩
+      · split at h
+        · cases h
+        · split at h
+          · cases h
+          · rename_i rr hrr
+            split at h
+            · cases h
+            · split at h
+              · cases h
+              · rename_i rc hrc
+                injection h with h; injection h with h1 h2; injection h2 with h2 h3
+                subst h1; subst h2
+                have hterms : ∀ t ∈ termsOf rr.1, isUni t = true ∧ Term.varsBelow nv t = true := by
+                  intro t ht
+                  unfold randMV at hrr
+                  split at hrr
+                  · cases hrr
+                  · injection hrr with hrr
+                    rw [← hrr] at ht
+                    exact mem_randTerms _ _ t (mem_termsOf_zip _ _ t (mem_fromCoeffs_term _ t ht))
+                have hrc' := msmBy_spec _ γ β rr.1 rc
+                  (fun t ht b hb => gammaBase_wf γ β nv m t b (hterms t ht).1 hb) hrc
+                refine ⟨by rw [hc, hrc'], ?_, ?_, fun t ht => (hterms t ht).1, hdeg'⟩
+                · exact (polyWf_iff _).2 (fun t ht => isUni_wf (hterms t ht).1)
+                · exact (polyVarsBelow_iff nv _).2 (fun t ht => (hterms t ht).2)
+
+/-! ### the defect of a changed claim -/
+
+theorem defectCombined_shift (vk : VK F) (C V dC dV : F) (z : List F) (π : Proof F) :
+    defectCombined vk (C + dC) (V + dV) z π = defectCombined vk C V z π + (dC - vk.g * dV) * vk.h := by
+  unfold defectCombined; ring
+
+theorem check_eq_decide (vk : VK F) (cs z vs : List F) (π : Proof F) (ξs : List F)
+    (a : F × F × List F) (hacc : accumulate 0 0 cs vs ξs = .ok a)
+    (hlen : π.w.length ≤ vk.betaH.length ∧ π.w.length ≤ z.length) :
+    check vk cs z vs π ξs = .ok (decide (defect vk cs z vs π ξs = 0)) := by
+  unfold check defect
+  rw [hacc]
+  simp only
+  rw [if_neg (by omega)]
+
+/-- **`check` decides exactly `defect = 0`** (whenever it does not abort). -/
+theorem check_iff_defect (vk : VK F) (cs z vs : List F) (π : Proof F) (ξs : List F)
+    (a : F × F × List F) (hacc : accumulate 0 0 cs vs ξs = .ok a)
+    (hlen : π.w.length ≤ vk.betaH.length ∧ π.w.length ≤ z.length) :
+    check vk cs z vs π ξs = .ok true ↔ defect vk cs z vs π ξs = 0 := by
+  rw [check_eq_decide vk cs z vs π ξs a hacc hlen]
+  simp
+
+/-- **One polynomial: the verifier's decision on an arbitrary changed claim.**  With
+`(c, r)` from `commit` and `π` from `open` at `z`, the check of the claim
+`(c + dc, z, p(z) + dv)` decides `(dc − g·dv)·ξ·h = 0`. -/
+theorem single_check_eq (g γ h : F) (β : List F) (ts : List Term) (nv s D m : Nat) (p : MVPoly F)
+    (hb : Option Nat) (rng : Bool) (draws : List F) (c : F) (r : MVPoly F) (rest : List F)
+    (z : List F) (ξ : F) (ξs : List F) (π : Proof F) (dc dv : F)
+    (hp : polyWf p = true) (hpv : polyVarsBelow nv p = true)
+    (hβ : nv ≤ β.length) (hz : nv ≤ z.length)
+    (hc : commit (wfCK g γ β ts nv s D m) p hb rng draws = .ok (c, r, rest))
+    (ho : PST.open (wfCK g γ β ts nv s D m) nv nv [p] z [r] (ξ :: ξs) = .ok π) :
+    check (wfVK g γ h β nv s D) [c + dc] z [evalMV p z + dv] π (ξ :: ξs)
+      = .ok (decide ((dc - g * dv) * ξ * h = 0)) := by
+  obtain ⟨hcs, hrw, hrv, hru, _⟩ := commit_spec g γ β ts nv s D m p hb rng draws c r rest hc
+  have hcomp := open_check_complete g γ h β ts nv s D m [p] [r] z (ξ :: ξs) π rfl
+    (fun q hq => by simp only [List.mem_singleton] at hq; subst hq; exact ⟨hp, hpv⟩)
+    (fun q hq => by simp only [List.mem_singleton] at hq; subst hq; exact ⟨hrw, hrv, hru⟩)
+    hβ hz ho
+  simp only [comms, List.zipWith_cons_cons, List.zipWith_nil_right, List.map_cons, List.map_nil,
+    ← hcs] at hcomp
+  unfold check at hcomp ⊢
+  simp only [accumulate, zero_add] at hcomp ⊢
+  split at hcomp
+  · cases hcomp
+  · rename_i hl
+    rw [if_neg hl]
+    injection hcomp with hcomp
+    have h0 : defectCombined (wfVK g γ h β nv s D) (c * ξ) (evalMV p z * ξ) z π = 0 := by
+      simpa using hcomp
+    have : (c + dc) * ξ = c * ξ + dc * ξ := by ring
+    rw [this]
+    have : (evalMV p z + dv) * ξ = evalMV p z * ξ + dv * ξ := by ring
+    rw [this, defectCombined_shift, h0]
+    simp only [wfVK, zero_add]
+    congr 1
+    have hiff : ((dc * ξ - g * (dv * ξ)) * h = 0) ↔ ((dc - g * dv) * ξ * h = 0) := by
+      constructor <;> intro hh <;> linear_combination hh
+    exact decide_eq_decide.2 hiff
+
+/-! ### trim -/
+
+theorem mapGet_filter (m : List (Term × F)) (s : Nat) (t : Term) :
+    mapGet (trimPowers s m) t = if Term.degree t ≤ s then mapGet m t else none := by
+  induction m with
+  | nil => simp [trimPowers, mapGet]
+  | cons kv m ih =>
+    unfold trimPowers at ih ⊢
+    rw [List.filter_cons]
+    by_cases hkt : kv.1 = t
+    · subst hkt
+      by_cases hk : Term.degree kv.1 ≤ s
+      · simp only [hk, decide_true, if_true, mapGet]
+      · simp only [hk, decide_false, Bool.false_eq_true, if_false]
+        rw [ih]; simp only [hk, if_false]
+    · by_cases hk : Term.degree kv.1 ≤ s
+      · simp only [hk, decide_true, if_true, mapGet, hkt, if_false]; exact ih
+      · simp only [hk, decide_false, Bool.false_eq_true, if_false, mapGet, hkt]; exact ih
+
+/-- **C15 (d).** `trim` keeps exactly the monomials of total degree `≤ supported_degree`, with
+their elements unchanged, and hands the verifier the element of the constant monomial. -/
+theorem trim_spec (pp : UParams F) (s : Nat) (ck : CK F) (vk : VK F)
+    (h : trim pp s = .ok (ck, vk)) :
+    s ≤ pp.maxDegree
+    ∧ ck.powersOfG = pp.powersOfG.filter (fun kv => decide (Term.degree kv.1 ≤ s))
+    ∧ (∀ t, mapGet ck.powersOfG t = if Term.degree t ≤ s then mapGet pp.powersOfG t else none)
+    ∧ mapGet pp.powersOfG [] = some vk.g
+    ∧ vk.betaH = pp.betaH ∧ vk.h = pp.h ∧ vk.gammaG = pp.gammaG ∧ ck.gammaG = pp.gammaG
+    ∧ ck.supportedDegree = s ∧ ck.numVars = pp.numVars := by
+  unfold trim at h
+  split at h
+  · cases h
+  · rename_i hs
+    split at h
+    · cases h
+    · split at h
+      · cases h
+      · rename_i g hg
+        injection h with h
+        injection h with h1 h2
+        subst h1; subst h2
+        refine ⟨by omega, rfl, fun t => mapGet_filter _ s t, ?_, rfl, rfl, rfl, rfl, rfl, rfl⟩
+        simpa [Term.new, Term.retainNonzero] using hg
+
+/-! ### totality: nothing the key covers is refused -/
+
+theorem Term.wf_iff (t : Term) :
+    Term.wf t = true ↔ (∀ q ∈ t, q.2 ≠ 0) ∧ t.Pairwise (fun a b => a.1 < b.1) := by
+  induction t with
+  | nil => simp [Term.wf]
+  | cons a t ih =>
+    constructor
+    · intro h
+      have ht := ih.1 (Term.wf_tail h)
+      refine ⟨Term.wf_pos h, List.pairwise_cons.2 ⟨Term.wf_head_lt h, ht.2⟩⟩
+    · rintro ⟨hp, hpw⟩
+      obtain ⟨h1, h2⟩ := List.pairwise_cons.1 hpw
+      exact Term.wf_cons (hp a (by simp)) (ih.2 ⟨fun q hq => hp q (by simp [hq]), h2⟩) h1
+
+theorem erase_sublist (i : Nat) (t : Term) : (Term.erase i t).Sublist t := by
+  induction t with
+  | nil => exact List.Sublist.refl _
+  | cons q t ih =>
+    simp only [Term.erase]
+    split
+    · exact List.sublist_cons_self q t
+    · exact ih.cons_cons q
+
+theorem wf_erase (i : Nat) {t : Term} (h : Term.wf t = true) : Term.wf (Term.erase i t) = true := by
+  rw [Term.wf_iff] at h ⊢
+  exact ⟨fun q hq => h.1 q ((erase_sublist i t).subset hq), h.2.sublist (erase_sublist i t)⟩
+
+theorem degree_erase_le (i : Nat) (t : Term) : Term.degree (Term.erase i t) ≤ Term.degree t := by
+  induction t with
+  | nil => exact Nat.le_refl _
+  | cons q t ih =>
+    simp only [Term.erase]
+    split
+    · simp only [Term.degree]; omega
+    · simp only [Term.degree]; omega
+
+theorem setPow_fst (i k : Nat) (t : Term) : (Term.setPow i k t).map Prod.fst = t.map Prod.fst := by
+  induction t with
+  | nil => rfl
+  | cons q t ih =>
+    simp only [Term.setPow]
+    split
+    · rename_i hq; simp [hq]
+    · simp [ih]
+
+theorem mem_setPow {i k : Nat} {t : Term} {q : Nat × Nat} (h : q ∈ Term.setPow i k t) :
+    q = (i, k) ∨ q ∈ t := by
+  induction t with
+  | nil => simp [Term.setPow] at h
+  | cons a t ih =>
+    simp only [Term.setPow] at h
+    split at h
+    · rcases List.mem_cons.1 h with h | h
+      · exact Or.inl h
+      · exact Or.inr (List.mem_cons_of_mem _ h)
+    · rcases List.mem_cons.1 h with h | h
+      · exact Or.inr (by simp [h])
+      · rcases ih h with h | h
+        · exact Or.inl h
+        · exact Or.inr (List.mem_cons_of_mem _ h)
+
+theorem wf_setPow (i k : Nat) (hk : k ≠ 0) {t : Term} (h : Term.wf t = true) :
+    Term.wf (Term.setPow i k t) = true := by
+  rw [Term.wf_iff] at h ⊢
+  refine ⟨fun q hq => ?_, ?_⟩
+  · rcases mem_setPow hq with rfl | hq
+    · exact hk
+    · exact h.1 q hq
+  · have h2 : (t.map Prod.fst).Pairwise (· < ·) := List.pairwise_map.2 h.2
+    rw [← setPow_fst i k t] at h2
+    exact List.pairwise_map.1 h2
+
+theorem degree_setPow {i k0 : Nat} {t : Term} (hf : Term.find? i t = some k0) (k : Nat) :
+    Term.degree (Term.setPow i k t) + k0 = Term.degree t + k := by
+  induction t with
+  | nil => simp [Term.find?] at hf
+  | cons q t ih =>
+    simp only [Term.find?] at hf
+    simp only [Term.setPow]
+    split at hf
+    · rename_i hq
+      injection hf with hf
+      rw [if_pos hq]; simp only [Term.degree]; omega
+    · rename_i hq
+      rw [if_neg hq]; simp only [Term.degree]
+      have := ih hf; omega
+
+theorem varsBelow_iff (nv : Nat) (t : Term) : Term.varsBelow nv t = true ↔ ∀ q ∈ t, q.1 < nv := by
+  simp [Term.varsBelow]
+
+/-- the monomials a key of supported degree `s` over `nv` variables must contain -/
+def Covered (nv s : Nat) (t : Term) : Prop :=
+  Term.wf t = true ∧ Term.varsBelow nv t = true ∧ Term.degree t ≤ s
+
+theorem covered_rem (nv s : Nat) (u : Term) (i k : Nat) (hu : Covered nv s u)
+    (hf : Term.find? i u = some k) : Covered nv s (Term.new (Term.erase i u)) := by
+  obtain ⟨h1, h2, h3⟩ := hu
+  rw [Term.new_of_wf (wf_erase i h1)]
+  refine ⟨wf_erase i h1, ?_, Nat.le_trans (degree_erase_le i u) h3⟩
+  rw [varsBelow_iff] at h2 ⊢
+  exact fun q hq => h2 q ((erase_sublist i u).subset hq)
+
+theorem covered_quot (nv s : Nat) (u : Term) (i k j : Nat) (hu : Covered nv s u)
+    (hf : Term.find? i u = some k) (hj : j + 1 < k) :
+    Covered nv s (Term.new (Term.setPow i (j + 1) u)) := by
+  obtain ⟨h1, h2, h3⟩ := hu
+  have hw := wf_setPow i (j + 1) (by omega) h1
+  rw [Term.new_of_wf hw]
+  refine ⟨hw, ?_, ?_⟩
+  · rw [varsBelow_iff] at h2 ⊢
+    intro q hq
+    rcases mem_setPow hq with rfl | hq
+    · exact h2 (i, k) (find?_mem hf)
+    · exact h2 q hq
+  · have := degree_setPow hf (j + 1); omega
+
+/-- the blinding monomials a key with `m` γ-powers per variable can serve -/
+def UniCovered (nv m : Nat) (t : Term) : Prop :=
+  isUni t = true ∧ Term.varsBelow nv t = true ∧ Term.degree t ≤ m
+
+theorem uniCovered_rem (nv m : Nat) (u : Term) (i k : Nat) (hu : UniCovered nv m u)
+    (hf : Term.find? i u = some k) : UniCovered nv m (Term.new (Term.erase i u)) := by
+  refine ⟨isUni_rem u i k hu.1 hf, ?_, ?_⟩
+  · have hw := isUni_wf hu.1
+    rw [Term.new_of_wf (wf_erase i hw)]
+    have h2 := hu.2.1
+    rw [varsBelow_iff] at h2 ⊢
+    exact fun q hq => h2 q ((erase_sublist i u).subset hq)
+  · have hw := isUni_wf hu.1
+    rw [Term.new_of_wf (wf_erase i hw)]
+    exact Nat.le_trans (degree_erase_le i u) hu.2.2
+
+theorem uniCovered_quot (nv m : Nat) (u : Term) (i k j : Nat) (hu : UniCovered nv m u)
+    (hf : Term.find? i u = some k) (hj : j + 1 < k) :
+    UniCovered nv m (Term.new (Term.setPow i (j + 1) u)) := by
+  have hc := covered_quot nv m u i k j ⟨isUni_wf hu.1, hu.2.1, hu.2.2⟩ hf hj
+  exact ⟨isUni_quot u i k j hu.1 hf hj, hc.2.1, hc.2.2⟩
+
+theorem msmBy_ok (look : Term → Except Err F) (p : MVPoly F)
+    (h : ∀ t ∈ termsOf p, ∃ b, look t = .ok b) : ∃ x, msmBy look p = .ok x := by
+  induction p with
+  | nil => exact ⟨0, rfl⟩
+  | cons ct p ih =>
+    obtain ⟨b, hb⟩ := h ct.2 (by simp [termsOf])
+    obtain ⟨x, hx⟩ := ih (fun t ht => h t (by simp only [termsOf, List.map_cons, List.mem_cons] at ht ⊢; exact Or.inr ht))
+    exact ⟨ct.1 * b + x, by simp only [msmBy, hb, hx]⟩
+
+theorem msmAll_ok (look : Term → Except Err F) (ws : List (MVPoly F))
+    (h : ∀ w ∈ ws, ∀ t ∈ termsOf w, ∃ b, look t = .ok b) : ∃ xs, msmAll look ws = .ok xs := by
+  induction ws with
+  | nil => exact ⟨[], rfl⟩
+  | cons w ws ih =>
+    obtain ⟨x, hx⟩ := msmBy_ok look w (h w (by simp))
+    obtain ⟨xs, hxs⟩ := ih (fun w' hw' => h w' (by simp [hw']))
+    exact ⟨x :: xs, by simp only [msmAll, hx, hxs]⟩
+
+theorem addHiding_ok (look : Term → Except Err F) (ws : List F) (hws : List (MVPoly F))
+    (hlen : ws.length ≤ hws.length)
+    (h : ∀ w ∈ hws, ∀ t ∈ termsOf w, ∃ b, look t = .ok b) :
+    ∃ xs, addHiding look ws hws = .ok xs := by
+  induction ws generalizing hws with
+  | nil => exact ⟨[], rfl⟩
+  | cons w ws ih =>
+    cases hws with
+    | nil => simp at hlen
+    | cons hw hws =>
+      obtain ⟨x, hx⟩ := msmBy_ok look hw (h hw (by simp))
+      obtain ⟨xs, hxs⟩ := ih hws (by simpa using hlen) (fun w' hw' => h w' (by simp [hw']))
+      exact ⟨(w + x) :: xs, by simp only [addHiding, hx, hxs]⟩
+
+theorem gammaRow_length (γ β : F) (n : Nat) (cur : F) : (gammaRow γ β n cur).length = n := by
+  induction n generalizing cur with
+  | zero => rfl
+  | succ n ih => simp [gammaRow, ih]
+
+theorem gammaBase_ok (γ : F) (β : List F) (nv m : Nat) (t : Term) (h : UniCovered nv m t) :
+    ∃ b, gammaBase γ ((List.range nv).map (fun i => gammaRow γ (getD' β i 0) m 1)) t = .ok b := by
+  obtain ⟨hu, hv, hd⟩ := h
+  match t with
+  | [] => exact ⟨γ, by simp [gammaBase, Term.isConstant]⟩
+  | [q] =>
+    have hq : q.2 ≠ 0 := by simpa [isUni] using hu
+    have hc : Term.isConstant [q] = false := by simp [Term.isConstant, Term.degree, hq]
+    have hvq : q.1 < nv := (varsBelow_iff nv [q]).1 hv q (by simp)
+    simp only [Term.degree] at hd
+    have hrow : ((List.range nv).map (fun i => gammaRow γ (getD' β i 0) m 1))[q.1]?
+        = some (gammaRow γ (getD' β q.1 0) m 1) := by
+      rw [List.getElem?_map, List.getElem?_range hvq]; rfl
+    have hlt : q.2 + 0 - 1 < (gammaRow γ (getD' β q.1 0) m 1).length := by
+      rw [gammaRow_length]; omega
+    refine ⟨(gammaRow γ (getD' β q.1 0) m 1)[q.2 + 0 - 1], ?_⟩
+    simp only [gammaBase, hc, Term.vars, List.map_cons, List.map_nil, List.getElem?_cons_zero,
+      Bool.false_eq_true, if_false, hrow, Term.degree, List.getElem?_eq_getElem hlt]
+  | _ :: _ :: _ => simp [isUni] at hu
+
+theorem combine_ok (s : Nat) (pa ra : MVPoly F) (ps rs : List (MVPoly F)) (ξs : List F)
+    (hdeg : ∀ p ∈ ps, degreeMV p ≤ s) (hξ : ps.length ≤ ξs.length) :
+    ∃ out, combine s pa ra ps rs ξs = .ok out := by
+  induction ps generalizing pa ra rs ξs with
+  | nil => exact ⟨(pa, ra, ξs), by simp only [combine]⟩
+  | cons p ps ih =>
+    cases rs with
+    | nil => exact ⟨(pa, ra, ξs), by simp only [combine]⟩
+    | cons r rs =>
+      cases ξs with
+      | nil => simp at hξ
+      | cons ξ ξs =>
+        have hd : checkDegree s p = .ok () := (checkDegree_ok s p).2 (by have := hdeg p (by simp); omega)
+        obtain ⟨out, hout⟩ := ih (addScaledMV pa ξ p) (addScaledMV ra ξ r) rs ξs
+          (fun q hq => hdeg q (by simp [hq])) (by simpa using hξ)
+        exact ⟨out, by simp only [combine, hd, hout]⟩
+
+/-- **The prover never refuses what the key covers.**  Key well-formed over a monomial list `ts`
+containing every monomial of degree `≤ s` in `nv` variables, `m` γ-powers per variable;
+polynomials of degree `≤ s`, blinding polynomials with univariate terms of degree `≤ m`; enough
+challenges; a point with `nv` coordinates: `open` returns a proof. -/
+theorem open_ok (g γ : F) (β : List F) (ts : List Term) (nv s D m : Nat)
+    (hcov : ∀ t, Covered nv s t → t ∈ ts)
+    (ps rs : List (MVPoly F)) (z ξs : List F)
+    (hps : ∀ p ∈ ps, polyWf p = true ∧ polyVarsBelow nv p = true ∧ degreeMV p ≤ s)
+    (hrs : ∀ r ∈ rs, ∀ t ∈ termsOf r, UniCovered nv m t)
+    (hξ : ps.length ≤ ξs.length) (hz : nv ≤ z.length) :
+    ∃ π, PST.open (wfCK g γ β ts nv s D m) nv nv ps z rs ξs = .ok π := by
+  obtain ⟨c, hc⟩ := combine_ok s [] [] ps rs ξs (fun p hp => (hps p hp).2.2) hξ
+  have hnil : ∀ (P : Term → Prop), ∀ t ∈ termsOf ([] : MVPoly F), P t := by
+    intro P t ht; simp [termsOf] at ht
+  have h1 : ∀ t ∈ termsOf c.1, Covered nv s t :=
+    combine_terms (Covered nv s) s [] [] ps rs ξs c hc (hnil _) (fun p hp t ht =>
+      ⟨(polyWf_iff p).1 (hps p hp).1 t ht, (polyVarsBelow_iff nv p).1 (hps p hp).2.1 t ht,
+        Nat.le_trans (degree_le_degreeMV p t ht) (hps p hp).2.2⟩)
+  have h2 : ∀ t ∈ termsOf c.2.1, UniCovered nv m t :=
+    combine_terms_r (UniCovered nv m) s [] [] ps rs ξs c hc (hnil _) hrs
+  have hq1 := divideAtPoint_terms (Covered nv s) (covered_rem nv s) (covered_quot nv s) nv c.1 z h1
+  have hq2 := divideAtPoint_terms (UniCovered nv m) (uniCovered_rem nv m) (uniCovered_quot nv m)
+    nv c.2.1 z h2
+  obtain ⟨w, hw⟩ := msmAll_ok (lookG (wfCK g γ β ts nv s D m).powersOfG) (divideAtPoint nv c.1 z)
+    (fun q hq t ht => ⟨g * evalTerm t β, by
+      simp only [wfCK, lookG, mapGet_map_of_mem _ ts t (hcov t (hq1 q hq t ht))]⟩)
+  have hwlen := msmAll_length _ _ _ hw
+  rw [divideAtPoint_length] at hwlen
+  have hc' : combine (wfCK g γ β ts nv s D m).supportedDegree [] [] ps rs ξs = .ok c := hc
+  unfold PST.open
+  simp only [hc']
+  unfold openCombined
+  simp only [hw]
+  split
+  · exact ⟨_, rfl⟩
+  · obtain ⟨w', hw'⟩ := addHiding_ok
+      (gammaBase (wfCK g γ β ts nv s D m).gammaG (wfCK g γ β ts nv s D m).powersOfGammaG) w
+      (divideAtPoint nv c.2.1 z) (by rw [divideAtPoint_length, hwlen])
+      (fun q hq t ht => gammaBase_ok γ β nv m t (hq2 q hq t ht))
+    simp only [hw']
+    rw [if_neg (by omega)]
+    exact ⟨_, rfl⟩
+
+/-- **The committer never refuses what the key covers**: any polynomial of degree `≤ s` over
+`nv` variables; no hiding, or a hiding bound `1 ≤ hb ≤ s` with an RNG (key with `s+1` γ-powers
+per variable). -/
+theorem commit_ok (g γ : F) (β : List F) (ts : List Term) (nv s D : Nat)
+    (hcov : ∀ t, Covered nv s t → t ∈ ts) (p : MVPoly F)
+    (hp : polyWf p = true) (hpv : polyVarsBelow nv p = true) (hd : degreeMV p ≤ s)
+    (hb : Option Nat) (draws : List F)
+    (hhb : ∀ b, hb = some b → 1 ≤ b ∧ b ≤ s ∧ 1 + nv * (b + 1) ≤ draws.length) :
+    ∃ out, commit (wfCK g γ β ts nv s D (s + 1)) p hb true draws = .ok out := by
+  have hdeg : checkDegree s p = .ok () := (checkDegree_ok s p).2 (by omega)
+  obtain ⟨c, hc⟩ := msmBy_ok (lookG (wfCK g γ β ts nv s D (s + 1)).powersOfG) p (fun t ht => ⟨g * evalTerm t β, by
+    simp only [wfCK, lookG, mapGet_map_of_mem _ ts t (hcov t ⟨(polyWf_iff p).1 hp t ht,
+      (polyVarsBelow_iff nv p).1 hpv t ht, Nat.le_trans (degree_le_degreeMV p t ht) hd⟩)]⟩)
+  unfold commit
+  simp only [wfCK] at hc ⊢
+  simp only [hdeg, hc]
+  cases hb with
+  | none => exact ⟨_, rfl⟩
+  | some b =>
+    obtain ⟨hb1, hb2, hb3⟩ := hhb b rfl
+    simp only [Bool.not_true, Bool.false_eq_true, if_false]
+    have hr : randMV (b + 1) nv draws = some (fromCoeffs (List.zip (draws.take (1 + nv * (b + 1)))
+        (randTerms (b + 1) nv)), draws.drop (1 + nv * (b + 1))) := by
+      unfold randMV; rw [if_neg (by omega)]
+    have hchk : checkHidingBound b (s + 1) = .ok () := by
+      unfold checkHidingBound; rw [if_neg (by omega), if_neg (by omega)]
+    simp only [hr, hchk]
+    have hterms : ∀ t ∈ termsOf (fromCoeffs (List.zip (draws.take (1 + nv * (b + 1)))
+        (randTerms (b + 1) nv))), UniCovered nv (s + 1) t := by
+      intro t ht
+      have hm := mem_termsOf_zip _ _ t (mem_fromCoeffs_term _ t ht)
+      refine ⟨(mem_randTerms _ _ t hm).1, (mem_randTerms _ _ t hm).2, ?_⟩
+      simp only [randTerms, List.mem_cons, List.mem_flatMap, List.mem_range, List.mem_map] at hm
+      rcases hm with rfl | ⟨v, hv, j, hj, rfl⟩
+      · simp [Term.new, Term.retainNonzero, Term.degree]
+      · have hw : Term.wf [(v, j + 1)] = true := by simp [Term.wf]
+        rw [Term.new_of_wf hw]; simp only [Term.degree]; omega
+    obtain ⟨rc, hrc⟩ := msmBy_ok (gammaBase γ ((List.range nv).map (fun i =>
+      gammaRow γ (getD' β i 0) (s + 1) 1))) _ (fun t ht => gammaBase_ok γ β nv (s + 1) t (hterms t ht))
+    simp only [hrc]
+    exact ⟨_, rfl⟩
+
+end Keys
+
 end PST
 end PCV
